@@ -14,16 +14,21 @@
        witness) -- hence the check demands identity only on canonical bytes;
      - every assemblable op of every version 0..LogicVersion is covered by these statements
        (finite table obligation, recomputed on every run).
-   The label layer (findBranchSizes / resolveLabels, short forms, dead-code rule, salt) is an
-   executable model tied to the code by the correspondence run; for it only the refutation of
-   the unrestricted round-trip (finding c33_deadcode_label_lost) is a theorem here.  The text
-   layer is tied only by the correspondence run. *)
+   The label layer of the assembler (per-op assemble functions, short forms, dead-code rule,
+   findBranchSizes / resolveLabels) is an executable model tied to the code by the
+   correspondence run; about it the following is proved for ALL symbolic programs: whatever it
+   accepts is the canonical encoding of a well-formed program with one instruction per statement
+   (so the disassembler's decoder reads exactly those instructions back, even strictly),
+   findBranchSizes reaches its fixpoint within the fuel (no OutOfFuel), every varint branch
+   fills its placeholder exactly.  The unrestricted text-level round trip is refuted (finding
+   c33_deadcode_label_lost).  That the decoded branch targets are the labelled instructions,
+   the salt, and the text layer are tied only by the correspondence run. *)
 From Coq Require Import NArith ZArith List Bool String.
 Import ListNotations.
 From Verif.lib Require Import Term.
 From Verif.model Require Import AvmTypes AvmCodec AvmCodecCheck.
 From Verif.gen Require Import AvmTables.
-From Verif.proofs Require Import AvmCodecProofs AvmCodecTableProofs.
+From Verif.proofs Require Import AvmCodecProofs AvmCodecAsmProofs AvmCodecTableProofs.
 Open Scope N_scope.
 
 Theorem C33_uvarint_roundtrip : forall strict x rest,
@@ -85,6 +90,65 @@ Theorem C33_roundtrip_deadcode_refuted :
 Proof. exact roundtrip_deadcode_refuted. Qed.
 Print Assumptions C33_roundtrip_deadcode_refuted.
 
+(* the assembler model only emits canonical encodings of well-formed programs; [feasible]:
+   the counts of list immediates fit 64 bits *)
+Theorem C33_asm_output_canonical : forall v p labs b,
+  feasible p = true -> c_asm_base v p labs = AOk b ->
+  exists q, c_wf_prog v q = true /\ b = enc_prog v q /\ List.length q = List.length p.
+Proof. exact asm_output_canonical_gen. Qed.
+Print Assumptions C33_asm_output_canonical.
+
+Theorem C33_asm_output_decodes : forall v p labs b,
+  feasible p = true -> c_asm_base v p labs = AOk b ->
+  exists q, c_dec_prog true b = Some (v, q) /\ c_dec_prog false b = Some (v, q) /\
+            enc_prog v q = b /\ List.length q = List.length p.
+Proof. exact asm_output_decodes. Qed.
+Print Assumptions C33_asm_output_decodes.
+
+(* the same for ANY tables that satisfy the eight table facts *)
+Theorem C33_asm_output_canonical_generic :
+  forall tbl grp names agrp max_str back_ver logic_ver,
+  logic_ver < 2 ^ 64 -> max_str < 2 ^ 64 ->
+  (forall v o s op, spec_at tbl v o s = Some op ->
+     os_opcode op = o /\ os_sub op = s /\ o < 256 /\ s < 256) ->
+  (forall v o s op, spec_at tbl v o s = Some op -> s <> 0 ->
+     os_imms op = [] /\ is_special (os_name op) = false) ->
+  (forall v o s op im b, spec_at tbl v o s = Some op -> In im (os_imms op) ->
+     (im_kind im = 0 -> field_ok grp v (agrp (os_name op) (im_group im)) b = true ->
+      (b <? 256) && field_named grp (im_group im) b = true) /\
+     (im_kind im = 1 -> im_group im = 0)) ->
+  (forall v o s op, spec_at tbl v o s = Some op ->
+     (os_name op = "intcblock"%string -> map (fun im => kind_of (im_kind im)) (os_imms op) = [KInts]) /\
+     (os_name op = "bytecblock"%string -> map (fun im => kind_of (im_kind im)) (os_imms op) = [KBytess])) ->
+  (forall v o s op base n, spec_at tbl v o s = Some op -> os_name op = base ->
+     In base ["arg"; "intc"; "bytec"]%string -> n < 4 ->
+     let a := by_name names v (short_name base n) in
+     wf_instr tbl grp v (mkI (os_opcode a) (os_sub a) []) = true /\
+     (base <> "arg"%string -> os_sub a = 0)) ->
+  (forall v o s op base n, spec_at tbl v o s = Some op -> os_name op = base ->
+     In base ["intc"; "bytec"]%string -> 4 <= n -> n < 256 ->
+     wf_instr tbl grp v (mkI (os_opcode (by_name names v base)) 0 [VByte n]) = true) ->
+  forall v p labs b,
+  feasible p = true ->
+  asm_base tbl grp names agrp max_str back_ver logic_ver v p labs = AOk b ->
+  exists q, wf_prog tbl grp logic_ver v q = true /\ b = enc_prog v q /\
+            List.length q = List.length p.
+Proof. exact asm_output_canonical. Qed.
+Print Assumptions C33_asm_output_canonical_generic.
+
+Theorem C33_find_branch_sizes_total : forall v p labs, c_asm_base v p labs <> AFuel.
+Proof. exact asm_base_no_fuel. Qed.
+Print Assumptions C33_find_branch_sizes_total.
+
+(* at the layout found by findBranchSizes every resolved varint branch is exactly as long as
+   its placeholder: no placeholder byte survives *)
+Theorem C33_branch_sizes_exact : forall labs back_ver v ps fuel vss bytes,
+  find_sizes labs fuel ps (map (fun _ => 3%nat) ps) = Some vss ->
+  resolve_all back_ver v labs (positions 0 ps vss) (last (positions 0 ps vss) 0%nat) 0 ps vss = Some bytes ->
+  exact_sizes labs (positions 0 ps vss) 0 ps vss.
+Proof. exact branch_sizes_exact. Qed.
+Print Assumptions C33_branch_sizes_exact.
+
 (* anti-vacuity *)
 Example C33_nonvacuous_v13 : c_wf_prog 13 demo_prog13 = true.
 Proof. exact demo_prog13_wf. Qed.
@@ -92,6 +156,8 @@ Example C33_nonvacuous_v8 : c_wf_prog 8 demo_prog8 = true.
 Proof. exact demo_prog8_wf. Qed.
 Example C33_table_size : 2000 <= ops_counted.
 Proof. exact ops_counted_positive. Qed.
+Example C33_asm_nonvacuous : feasible branch_prog = true.
+Proof. reflexivity. Qed.
 Example C33_label_layer_runs :
   match c_asm_base 13 branch_prog [2%nat; 0%nat; 4%nat; 1%nat] with
   | AOk b => AvmCodecCheck.bytes_eqb (firstn 4 b) [13; 66; 128; 1] &&
